@@ -302,7 +302,7 @@ def simp1(t):
                 if x[0] == 'const' or y[0] == 'const':
                     return simp(('ite', other[1], x, y))
             if other[0] in ('tuple', 'list', 'dict', 'obj', 'lpvar', 'lpproblem', 'fstr', 'comp', 'cat', 'lambda', 'dictcomp', 'accum', 'upd', 'sum', 'closure', 'slice') \
-                    or (other[0] == 'call' and other[1] in (S('lpSum'), S('LpAffineExpression'), S('list'), S('tuple'), S('dict'), S('set'), S('sorted'), S('str'), S('len'), S('range'))) \
+                    or (other[0] == 'call' and other[1] in (S('lpSum'), S('LpAffineExpression'), S('list'), S('tuple'), S('dict'), S('set'), S('sorted'), S('str'), S('len'), S('range'), S('int'), S('float'), S('bool'), S('abs'), S('frozenset'))) \
                     or (other[0] == 'const' and other[1] is not None) \
                     or (other[0] == 'bin' and other[1] in ('Add', 'Sub', 'Mult')) \
                     or (other[0] == 'idx' and other[1][0] == 'attr' and other[1][2] == 'project_closures' and other[2][0] != 'slice'):
